@@ -21,7 +21,7 @@ from .proxies import ctx, PathAbort, SInt, SReal, wrap, lift, Unsupported
 
 
 class LoopSpec:
-    def __init__(self, inv, decreases=None, havoc=None, loop_var_range=None, name=''):
+    def __init__(self, inv, decreases=None, havoc=None, loop_var_range=None, name='', lemmas=None, abstractions=None):
         """inv(state, state0) -> T (bool) | list[(label, T)]   state: dict name -> current value
         decreases(state) -> T (int), must be >= 0 and strictly decrease over one iteration
         havoc: optional dict name -> callable(old_value, ctx) -> fresh value (default: by type)"""
@@ -29,6 +29,9 @@ class LoopSpec:
         self.decreases = decreases
         self.havoc = havoc or {}
         self.name = name
+        self.abstractions = abstractions or {}    # local name -> (state, tensor) -> [(label, fn(n) -> T)]: after the assignment the
+        # facts are proved about the computed tensor at a fresh index and the local is re-bound to an opaque tensor satisfying them
+        self.lemmas = lemmas      # (state) -> [(label, T)]: intermediate assertions, each proved then assumed (cut rule)
 
 
 class _Runtime:
@@ -58,9 +61,50 @@ class _Runtime:
             c.assume(cond)
         self._pre = dict(state)
 
+    def abstract(self, k, name, value, state):
+        """modular cut inside the loop body: prove the declared facts about `value`, then forget how it was computed"""
+        from .torchlib.tensor import Tensor, ti
+        spec = self.loops[k]
+        c = ctx()
+        if not isinstance(value, Tensor) or len(value._shape) != 1:
+            raise Unsupported('abstraction of %s: only 1-D tensors' % name)
+        facts = spec.abstractions[name](state, value)
+        n_ = ti(value._shape[0])
+        self._nabs = getattr(self, '_nabs', 0) + 1
+        opaque = Tensor.input('abs%d_%s' % (self._nabs, name), value._shape, value.dtype, origin='fresh')
+        opaque.deps = value.deps
+        for (label, fn) in facts:
+            sk = c.fresh('ab', 'I')
+            c.oblige('lemma', 'loop %s: %s' % (spec.name or k, label), tm.implies(tm.and_(tm.le(tm.IZERO, sk), tm.lt(sk, n_)), fn(value, sk)))
+            q = c.fresh('aq', 'I')
+            c.assume(tm.forall(q, tm.IZERO, n_, fn(opaque, q)))
+        return opaque
+
     def preserve(self, k, state):
         spec = self.loops[k]
         c = ctx()
+        if spec.lemmas is not None:
+            for entry in spec.lemmas(state):
+                label, cond = entry[0], entry[1]
+                if callable(cond):
+                    # index-wise lemma  (lo, hi, fn):  proved at a fresh index, then assumed for every index
+                    lo, hi = entry[2], entry[3]
+                    sk = c.fresh('lm', 'I')
+                    opts = entry[4] if len(entry) > 4 else None
+                    if opts:
+                        # generalisation: the listed sub-terms are replaced by fresh variables and the lemma is proved
+                        # from the listed earlier lemma instances ONLY (a more general statement; sound)
+                        amap = {t_: c.fresh('ab_' + nm, t_.sort) for nm, t_ in opts['abstract'](sk).items()}
+                        goal2 = tm.subst(cond(sk), amap)
+                        using2 = [tm.subst(u_, amap) for u_ in opts['using'](sk)]
+                        c.side.append({'kind': 'lemma', 'name': 'loop %s: %s [generalised]' % (spec.name or k, label), 'hyps': using2, 'goal': goal2, 'info': None})
+                    else:
+                        c.oblige('lemma', 'loop %s: %s' % (spec.name or k, label), tm.implies(tm.and_(tm.le(lo, sk), tm.lt(sk, hi)), cond(sk)))
+                    q = c.fresh('lq', 'I')
+                    c.assume(tm.forall(q, lo, hi, cond(q)))
+                else:
+                    c.oblige('lemma', 'loop %s: %s' % (spec.name or k, label), cond)
+                    c.assume(cond)
         for (label, cond) in _as_list(spec.inv(state, self.entry[k])):
             c.oblige('inv-preserve', 'loop %s: %s' % (spec.name or k, label), cond)
         if spec.decreases is not None:
@@ -177,8 +221,8 @@ class _Cutter(ast.NodeTransformer):
                 elif isinstance(sub, (ast.For,)):
                     tgt = [sub.target]
                 for t_ in tgt:
-                    # only plain names (and names in tuple/list unpacking) are re-bound; `x.attr = ...` and
-                    # `x[i] = ...` mutate an object and are not havocked here
+                    # plain names (and names in tuple/list unpacking) are re-bound; `x[i] = ...` mutates the
+                    # tensor bound to x, which is havocked as a whole; `x.attr = ...` is left alone
                     stack = [t_]
                     while stack:
                         n = stack.pop()
@@ -189,6 +233,9 @@ class _Cutter(ast.NodeTransformer):
                             stack.extend(n.elts)
                         elif isinstance(n, ast.Starred):
                             stack.append(n.value)
+                        elif isinstance(n, ast.Subscript) and isinstance(n.value, ast.Name):
+                            if n.value.id not in names:
+                                names.append(n.value.id)
         return names
 
     def _state(self, names):
@@ -202,6 +249,20 @@ class _Cutter(ast.NodeTransformer):
         self.generic_visit(node)
         self.depth -= 1
         return node
+
+    def _with_abstractions(self, k, body):
+        names = getattr(self.loops[k], 'abstractions', None) or {}
+        if not names:
+            return body
+        out = []
+        for st in body:
+            out.append(st)
+            if isinstance(st, ast.Assign) and len(st.targets) == 1 and isinstance(st.targets[0], ast.Name) and st.targets[0].id in names:
+                nm = st.targets[0].id
+                out.append(ast.Assign([ast.Name(nm, ast.Store())],
+                                      ast.Call(ast.Attribute(ast.Name('__pfv', ast.Load()), 'abstract', ast.Load()),
+                                               [ast.Constant(k), ast.Constant(nm), ast.Name(nm, ast.Load()), self._state(None)], [])))
+        return out
 
     def visit_While(self, node):
         self.ordinal += 1
@@ -241,6 +302,7 @@ class _Cutter(ast.NodeTransformer):
         out.append(ast.Expr(P('assume_range', [ast.Constant(k), ast.Name(v, ast.Load()), ast.Name('__rng%d' % k, ast.Load())])))
         out.append(ast.Expr(P('assume', [ast.Constant(k), self._state(None)])))
         test = ast.Compare(ast.Name(v, ast.Load()), [ast.Lt()], [ast.Attribute(ast.Name('__rng%d' % k, ast.Load()), 'stop', ast.Load())])
+        node.body = self._with_abstractions(k, node.body)
         body = list(node.body) + [ast.Assign([ast.Name(v, ast.Store())], ast.BinOp(ast.Name(v, ast.Load()), ast.Add(), ast.Constant(1))),
                                   ast.Expr(P('preserve', [ast.Constant(k), self._state(None)]))]
         out.append(ast.If(test, body, []))
